@@ -76,5 +76,10 @@ Want == SelectD(Ones, nw, i)
 SelectOK    == Select32Alg = Want
 SelectR64OK == Select32R64Alg = Want
 InverseLaw  == Rank(S, Want[1]) = i /\ Want[1] \in S
+\* the closed form used for long dense bitmaps (given by their 0-bits) is the definition
+Zeros == SetToSortSeq((0..(W * nw - 1)) \ S, <)
+DenseFormOK == /\ SelectL(TRUE, Zeros, i) = Want[1] /\ SelectL(FALSE, Ones, i) = Want[1]
+               /\ OnesBeforeL(TRUE, Zeros, Want[1]) = i /\ BitAtL(TRUE, Zeros, Want[1]) = 1
+               /\ NOnesL(TRUE, Zeros, nw) = Cardinality(S)
 IndexShape  == Len(SIdx) = CeilDiv(Cardinality(S), K) /\ RIdx = IdxRank64D(S, nw, TRUE)
 ================================================================================
